@@ -75,6 +75,24 @@ struct Layout18 {
 }
 
 fn what_action_text(vk: u8, w: What, d: u16, t: u16) -> String {
+    // the second virtual key is operated through the older spellings of the same actions
+    if vk == 1 {
+        let kind_cfg = |k: Kind| match k {
+            Kind::Press => "press",
+            Kind::Release => "release",
+            Kind::Tap => "tap",
+            Kind::Toggle => "toggle",
+        };
+        let rel = if d % 2 == 1 { "on↑fakekey" } else { "on-release-fakekey" };
+        let prs = if d % 2 == 1 { "on↓fakekey" } else { "on-press-fakekey" };
+        match w {
+            What::Op(k, 0) => return format!("({prs} vk{vk} {})", kind_cfg(k)),
+            What::Op(k, 1) => return format!("({rel} vk{vk} {})", kind_cfg(k)),
+            What::Op(k, 2) => return format!("(macro ({prs} vk{vk} {}))", kind_cfg(k)),
+            What::OnIdle(k) if k != Kind::Toggle => return format!("(on-idle-fakekey vk{vk} {} {t})", kind_cfg(k)),
+            _ => {}
+        }
+    }
     match w {
         What::Op(k, 0) => format!("(on-press {} vk{vk})", kind_cfg(k)),
         What::Op(k, 1) => format!("(on-release {} vk{vk})", kind_cfg(k)),
@@ -298,6 +316,9 @@ struct Expect {
     /// two on-idle entries fired in the same tick on one virtual key (their order is unspecified)
     ambiguous: bool,
     classes: Vec<&'static str>,
+    /// a tick at which kanata reported itself idle while a hold-for-duration countdown had at
+    /// least 2 ms to run (an on-idle action would count that time as idle)
+    idle_while_hold_pending: Option<u64>,
 }
 
 #[derive(Clone, Copy, Debug)]
@@ -323,7 +344,7 @@ fn model(c: &VCase, lay: &Layout18, ins: &[(u64, In)], idle: &[bool], end: u64, 
     let mut macro_due: Vec<(u64, u8, Kind)> = vec![];
     let mut macro_out: Vec<(u64, bool, u16)> = vec![];
     let mut seq_active = false;
-    let mut ex = Expect { keys: vec![], layer1: vec![], ambiguous: false, classes: vec![] };
+    let mut ex = Expect { keys: vec![], layer1: vec![], ambiguous: false, classes: vec![], idle_while_hold_pending: None };
     let mut next = 0usize;
     // push the events of one fake-key operation; the toggle looks at the state at call time
     fn apply(kind: Kind, vk: u8, pressed: &[bool], is_macro: bool, queue: &mut std::collections::VecDeque<Q>) {
@@ -342,6 +363,9 @@ fn model(c: &VCase, lay: &Layout18, ins: &[(u64, In)], idle: &[bool], end: u64, 
     }
     for i in 0..=end {
         let k = i + 1; // tick number
+        if idle.get(i as usize).copied().unwrap_or(false) && pending.iter().any(|p| matches!(p, Some(d) if *d >= 2)) && ex.idle_while_hold_pending.is_none() {
+            ex.idle_while_hold_pending = Some(k);
+        }
         // top of the loop iteration: idle counting for on-idle
         if !idle.get(i as usize).copied().unwrap_or(true) {
             cnt = 0;
@@ -567,6 +591,13 @@ fn judge_case(c: &VCase) -> Verdict {
     if a.ambiguous {
         return Verdict::discard("unordered-simultaneous-timers-or-overlapping-macro-runs");
     }
+    if let (Some(t), Some(t2)) = (a.idle_while_hold_pending, b.idle_while_hold_pending) {
+        return Verdict::failed(
+            "vkey:idle-reported-while-hold-for-duration-pending",
+            format!("{}
+at tick {} (and {t2} under the other tie rule) kanata reports itself idle although a hold-for-duration is still counting down: on-idle would fire before kanata has been idle", describe(), t),
+        );
+    }
     let matches = |e: &Expect| e.keys == observed && e.layer1 == tr.layer1;
     // F45: a hold-for-duration re-triggered while its countdown is still running, after
     // something else released the key, only resets the countdown
@@ -634,7 +665,7 @@ impl TypedProp for C18 {
     fn info(&self) -> PropInfo {
         PropInfo {
             level: "exploration",
-            rule: "configs: 1-3 virtual keys, each a key, (layer-while-held l1) or a one-key macro; one physical key per distinct operation: (on-press|on-release OP vk), (macro (on-press OP vk)), (hold-for-duration D vk), (hold-for-duration 3D+7 vk), (on-idle T OP vk), OP in press/release/tap/toggle; a sequence leader and one defseq per virtual key; rapid-event-delay 0. Histories: 1-13 operations >= 5 ms apart (>= 9 ms before a typed sequence), gaps drawn from small values, D-1/D/D+1, T-1/T/T+1 and long pauses, each operation through one of five sources (on-press, on-release, macro item, direct handle_fakekey_action call as the TCP server makes it, completed sequence = tap); run through the processing-loop emulation (can_block_update_idle_waiting every ms). Oracle: a reference model - the event queue handled one event per tick, a pressed flag per virtual key, press/release/tap/toggle on that flag (toggle decided when the operation is issued), hold-for-duration with a countdown of D ticks from its most recent activation (re-armed while it runs), on-idle firing once when kanata's own is_idle has held for T consecutive loop iterations since the last input or activation - predicts every OS transition of the virtual keys' output keys to the tick, and the layer-1 flag after every tick; they must be equal. Non-trivial: a toggle, a re-armed hold-for-duration or a fired on-idle occurs. Distinct: hash of the case.".into(),
+            rule: "configs: 1-3 virtual keys, each a key, (layer-while-held l1) or a one-key macro; one physical key per distinct operation: (on-press|on-release OP vk), (macro (on-press OP vk)), (hold-for-duration D vk), (hold-for-duration 3D+7 vk), (on-idle T OP vk), OP in press/release/tap/toggle (the second virtual key through the older spellings on-press-fakekey / on-release-fakekey / on-idle-fakekey and their arrow aliases); a sequence leader and one defseq per virtual key; rapid-event-delay 0. Histories: 1-13 operations >= 5 ms apart (>= 9 ms before a typed sequence), gaps drawn from small values, D-1/D/D+1, T-1/T/T+1 and long pauses, each operation through one of five sources (on-press, on-release, macro item, direct handle_fakekey_action call as the TCP server makes it, completed sequence = tap); run through the processing-loop emulation (can_block_update_idle_waiting every ms). Oracle: a reference model - the event queue handled one event per tick, a pressed flag per virtual key, press/release/tap/toggle on that flag (toggle decided when the operation is issued), hold-for-duration with a countdown of D ticks from its most recent activation (re-armed while it runs), on-idle firing once when kanata's own is_idle has held for T consecutive loop iterations since the last input or activation - predicts every OS transition of the virtual keys' output keys to the tick, and the layer-1 flag after every tick; they must be equal; and kanata must not report itself idle while a hold-for-duration countdown has 2 ms or more to run. Non-trivial: a toggle, a re-armed hold-for-duration or a fired on-idle occurs. Distinct: hash of the case.".into(),
             assumptions: vec![
                 "a macro virtual key has no held state: each press event runs it once, release does nothing, toggle always presses".into(),
                 "kanata's is_idle() (the subject of C07) is taken as the definition of 'idle' for on-idle".into(),
